@@ -258,7 +258,29 @@ def program_files(prog) -> Dict[str, str]:
 # ---- Gallina --------------------------------------------------------------------------------
 
 def ccodes(bs) -> str:
-    return "[" + "; ".join(str(int(x)) for x in bs) + "]"
+    """Gallina `list Z`; long texts are run-length encoded (`repeat c n ++ [...]`) so that the
+    boundary catalogue of long strings stays cheap to parse"""
+    bs = [int(x) for x in bs]
+    if len(bs) <= 48:
+        return "[" + "; ".join(str(x) for x in bs) + "]"
+    parts: List[str] = []
+    lit: List[int] = []
+    i = 0
+    while i < len(bs):
+        j = i
+        while j < len(bs) and bs[j] == bs[i]:
+            j += 1
+        if j - i >= 8:
+            if lit:
+                parts.append("[" + "; ".join(str(x) for x in lit) + "]")
+                lit = []
+            parts.append(f"repeat {bs[i]} (Z.to_nat {j - i})")
+        else:
+            lit.extend(bs[i:j])
+        i = j
+    if lit:
+        parts.append("[" + "; ".join(str(x) for x in lit) + "]")
+    return "(" + " ++ ".join(parts) + ")"
 
 
 def cstr(s: str) -> str:
@@ -481,6 +503,8 @@ def gen_string_program(rng: random.Random, idx: int) -> Dict[str, Any]:
     stmts = []
     for j in range(rng.randrange(1, 4)):
         stmts.append({"k": "const", "name": f"S{j}", "rhs": _str_rhs(rng, gen_unsafe_string(rng))})
+    if rng.random() < 0.5:
+        stmts.append({"k": "const", "name": "SLONG", "rhs": _str_rhs(rng, gen_long_string(rng))})
     stmts.append({"k": "const", "name": "ZZ_END", "rhs": {"k": "calc", "expr": ["dec", 0], "toks": [["int", "0"]],
                                                          "text": "0", "minimal": True}})
     return {"stream": "str-inside", "files": [{"name": f"strs{idx}", "stmts": stmts}]}
@@ -548,3 +572,99 @@ def escape_sweep_programs(start_idx: int) -> List[Dict[str, Any]]:
         progs.append({"stream": "str-inside", "files": [{"name": f"sweep{k}", "stmts": stmts}]})
         k += 1
     return progs
+
+
+# ---- long strings -----------------------------------------------------------------------------
+# Lengths at which a renderer, a compiler limit or a chunking scheme could change behaviour:
+# 255/256 (one-byte length), 509 (ISO C90 minimum string literal length) and its multiple 1018,
+# 4095 (ISO C99 minimum).  What matters for a splitting/wrapping emitter is the offset in the
+# ESCAPED text, so every escape kind is placed so that its escaped form starts at each offset
+# around the boundary (and therefore straddles it for the multi-character escapes).
+
+LONG_CENTERS = [255, 509, 1018, 4095]
+LONG_KINDS_QUICK = ['"', "\\", "\n", "\x01", "\x7f", "\x00"]
+LONG_KINDS_ALL = LONG_KINDS_QUICK + ["\t", "\r", "\x1f", "'"]
+LONG_OFFSETS = [-4, -3, -2, -1, 0, 1]
+
+
+def _filler(n: int, k: int) -> str:
+    """n plain characters in a few long runs of different letters (cheap to write down)"""
+    out = []
+    letters = "abcdefghjkmnpqrstuvwxyz"
+    i = 0
+    while n > 0:
+        m = min(n, 97 + 13 * ((k + i) % 5))
+        out.append(letters[(k + i) % len(letters)] * m)
+        n -= m
+        i += 1
+    return "".join(out)
+
+
+def long_string_catalogue(quick: bool) -> List[Tuple[str, str]]:
+    """(label, value): plain strings of length c-1, c, c+1 and, for every escape kind and offset,
+    a string whose escape starts at escaped offset c+d, followed by a digit and a short tail.
+    Quick tier: everything around 255 and 509, a thinner grid at 1018 and 4095 (the cost of a case
+    is its length); thorough tier: the full grid with more escape kinds."""
+    out: List[Tuple[str, str]] = []
+    k = 0
+    for c in LONG_CENTERS:
+        kinds = LONG_KINDS_ALL
+        offsets = LONG_OFFSETS
+        plain = (-1, 0, 1)
+        if quick:
+            kinds = LONG_KINDS_QUICK
+            if c == 1018:
+                offsets = [-3, -1, 0]
+            elif c == 4095:
+                kinds, offsets, plain = ["\\", "\x01", "\n"], [-3, -1], (0,)
+        for d in plain:
+            out.append((f"plain{c + d}", _filler(c + d, k)))
+            k += 1
+        for kind in kinds:
+            for d in offsets:
+                k += 1
+                out.append((f"esc{ord(kind):02x}at{c + d}", _filler(c + d, k) + kind + "17" + _filler(9, k + 1)))
+        # the escape is the LAST character and the total escaped length sits on the boundary
+        for kind in kinds[:4 if c < 4095 or not quick else 1]:
+            k += 1
+            out.append((f"end{ord(kind):02x}len{c}", _filler(c - 1, k) + kind))
+    return out
+
+
+def long_string_programs(start_idx: int, quick: bool, per: int = 12) -> List[Dict[str, Any]]:
+    cat = long_string_catalogue(quick)
+    progs = []
+    k = start_idx
+    for i in range(0, len(cat), per):
+        stmts = []
+        for j, (label, v) in enumerate(cat[i:i + per]):
+            spelled = "".join("\\" + REV_ESC[ch] if ch in ('"', "\\", "\n", "\r") else ch for ch in v)
+            stmts.append({"k": "const", "name": f"S{j}", "label": label, "rhs": {"k": "str", "raw": list(spelled.encode("utf-8"))}})
+        stmts.append({"k": "const", "name": "ZZ_END", "rhs": {"k": "calc", "expr": ["dec", 0], "toks": [["int", "0"]],
+                                                             "text": "0", "minimal": True}})
+        progs.append({"stream": "str-inside", "files": [{"name": f"long{k}", "stmts": stmts}]})
+        k += 1
+    return progs
+
+
+def gen_long_string(rng: random.Random) -> str:
+    """a random long string: runs of letters with escapes in between; half of the time the escaped
+    length up to some escape is steered to a multiple of 509 (+-3) or to 255/256/4095"""
+    pieces: List[str] = []
+    esc_len = 0
+    target = rng.choice([509, 1018, 1527, 255, 256, 4095, 2036]) + rng.randrange(-3, 2) if rng.random() < 0.6 else None
+    n_seg = rng.randrange(2, 7)
+    for i in range(n_seg):
+        if target is not None and i == n_seg // 2 and esc_len < target:
+            run = target - esc_len
+        else:
+            run = rng.choice([1, 5, 40, 130, 260, 500])
+        pieces.append(rng.choice("abcdefghjkmnpqrstuvwxyz0123456789 ") * run)
+        esc_len += run
+        e = rng.choice(['"', "\\", "\n", "\t", "\r", "\x01", "\x00", "\x7f", "\x1b", "\\n", '""', "é"])
+        pieces.append(e)
+        esc_len += sum(2 if ch in '"\\\n\r\t' else 4 if (ord(ch) < 32 or ord(ch) == 127) else len(ch.encode()) for ch in e)
+        if rng.random() < 0.5:
+            pieces.append(rng.choice("0123456789"))
+            esc_len += 1
+    return "".join(pieces)
